@@ -90,8 +90,10 @@ def v1_chain(rng, legacy_signer=False):
     root, dev, att = K1Key(rng), K1Key(rng), K1Key(rng)
     dev_msg = bytes([0x02]) + bytes(rng.getrandbits(8) for _ in range(rng.randint(0, 12))) + dev.pub()
     att_msg = bytes([0xFF]) + att.pub()
-    ui_hash = bytes(rng.getrandbits(8) for _ in range(32))
-    signer_hash = bytes(rng.getrandbits(8) for _ in range(32))
+    # the declared tweaks are application hashes (32 bytes) in genuine certificates; the HMAC takes a key of any
+    # length, so some chains declare - and are genuinely signed under - shorter or longer ones
+    ui_hash = bytes(rng.getrandbits(8) for _ in range(rng.choice([32, 32, 32, 1, 16, 31, 33])))
+    signer_hash = bytes(rng.getrandbits(8) for _ in range(rng.choice([32, 32, 32, 2, 20, 31, 40])))
     ui_msg = b"HSM:UI:5.4" + bytes(rng.getrandbits(8) for _ in range(32 + 33 + 32 + 2))
     signer_msg = b"POWHSM:5.4::" + bytes(rng.getrandbits(8) for _ in range(115))
     els = [
